@@ -37,6 +37,14 @@
 (*                               values of the previous period are appended as solved.   *)
 (*                               FALSE: at least one sweep is made in every period.      *)
 (*                                                                                    *)
+(* Caller level: SolveStep(k) may be called again after it raised (action Retry), with *)
+(* a raised MaxIterations and / or a loosened tolerance, which then stay in force.     *)
+(* A period is recorded all-or-nothing: a failed attempt appends nothing                *)
+(* (C02_PeriodAllOrNothing), so the retry starts from the same series.                 *)
+(* LaggedRecordedAtSetup = TRUE models lagged values appended when the period is set   *)
+(* up: after a failed attempt the lagged series is one entry longer, the retry appends *)
+(* it again - TLC finds the counterexample.                                            *)
+(*                                                                                    *)
 (* Every action is written through a pure operator on a state record (`*Op`); the     *)
 (* trace specification Solver_Trace composes the same operators.                      *)
 EXTENDS Integers, Sequences, TLC, FiniteSets
@@ -45,7 +53,11 @@ CONSTANTS Cap,       \* MaxIterations
           Horizon,   \* MaxTime
           AsFound_NaNExitsLoop,
           AsFound_DecorativeAfterAppend,
-          AsFound_NoSweepAtBigTolerance
+          AsFound_NoSweepAtBigTolerance,
+          MaxRetries,   \* how often the caller calls SolveStep again for a period that raised (per run)
+          CapBoost,     \* by how much the caller may raise MaxIterations before the retry
+          SweepAlphabet, DecoAlphabet, BigChoices,   \* the instance: outcomes / start tolerance classes explored
+          LaggedRecordedAtSetup   \* FALSE = the code: a period is recorded all-or-nothing, at its end
 
 Classes == {"sim", "lag", "deco", "exo"}
 NonExo == {"sim", "lag", "deco"}
@@ -77,8 +89,8 @@ LoopContinuesIn(st) ==
 
 Completed == IF AsFound_DecorativeAfterAppend THEN "decorating" ELSE "appended"
 
-InitState(h, big) ==
-                [step |-> 0, sweep |-> 0, errc |-> "gt_tol", evalErr |-> FALSE, iter |-> "finite",
+InitState(h, big, cap) ==
+                [cap |-> cap, retries |-> 0, step |-> 0, sweep |-> 0, errc |-> "gt_tol", evalErr |-> FALSE, iter |-> "finite",
                  status |-> "idle", big |-> big,
                  len |-> [c \in Classes |-> IF c = "exo" THEN h + 1 ELSE 1]]
 
@@ -86,7 +98,18 @@ BeginStepEnabled(st, h) == st.status \in {"idle", Completed} /\ st.step < h
 \* relative_error = 1.: above a tolerance < 1, within a tolerance >= 1
 BeginStepOp(st) == [st EXCEPT !.step = @ + 1, !.sweep = 0,
                               !.errc = IF st.big THEN "le_tol" ELSE "gt_tol", !.evalErr = FALSE,
-                              !.iter = "finite", !.status = "iterating"]
+                              !.iter = "finite", !.status = "iterating",
+                              !.len = IF LaggedRecordedAtSetup
+                                      THEN [c \in Classes |-> IF c = "lag" THEN @[c] + 1 ELSE @[c]] ELSE @]
+
+(* the caller calls SolveStep for the same period again, after changing MaxIterations / the tolerance *)
+RetryEnabled(st, maxr) == st.status \in Raised /\ st.retries < maxr
+RetryOp(st, newcap, newbig) ==
+    [st EXCEPT !.sweep = 0, !.errc = IF newbig THEN "le_tol" ELSE "gt_tol", !.evalErr = FALSE,
+               !.iter = "finite", !.status = "iterating", !.cap = newcap, !.big = newbig,
+               !.retries = @ + 1,
+               !.len = IF LaggedRecordedAtSetup
+                       THEN [c \in Classes |-> IF c = "lag" THEN @[c] + 1 ELSE @[c]] ELSE @]
 
 SweepEnabled(st, cap, o) ==
     /\ st.status = "iterating"
@@ -123,8 +146,10 @@ AppendEnabled(st) ==
     ELSE st.status = "decorating"
 AppendOp(st) ==
     IF AsFound_DecorativeAfterAppend
-    THEN [st EXCEPT !.status = "appended", !.len = Bump(@, {"sim", "lag"})]
-    ELSE [st EXCEPT !.status = "appended", !.len = Bump(@, NonExo)]
+    THEN [st EXCEPT !.status = "appended",
+                    !.len = Bump(@, IF LaggedRecordedAtSetup THEN {"sim"} ELSE {"sim", "lag"})]
+    ELSE [st EXCEPT !.status = "appended",
+                    !.len = Bump(@, IF LaggedRecordedAtSetup THEN NonExo \ {"lag"} ELSE NonExo)]
 
 DecorateEnabled(st) ==
     IF AsFound_DecorativeAfterAppend THEN st.status = "appended"
@@ -141,31 +166,41 @@ FinishOp(st) == [st EXCEPT !.status = "done"]
 
 (* ---------------------------------------------------------------------------------- *)
 VARIABLES step, sweep, errc, evalErr, iter, status, len,
-          big,      \* the tolerance of this run is >= 1
+          big,      \* the tolerance in force is >= 1
+          cap,      \* MaxIterations in force
+          retries,  \* retries made in this run
           hist      \* history: one record per period (what the replay driver realises)
 
-vars == << step, sweep, errc, evalErr, iter, status, len, big, hist >>
+vars == << step, sweep, errc, evalErr, iter, status, len, big, cap, retries, hist >>
 
 St == [step |-> step, sweep |-> sweep, errc |-> errc, evalErr |-> evalErr, iter |-> iter,
-       status |-> status, len |-> len, big |-> big]
+       status |-> status, len |-> len, big |-> big, cap |-> cap, retries |-> retries]
 
 Set(st) == /\ step' = st.step /\ sweep' = st.sweep /\ errc' = st.errc /\ evalErr' = st.evalErr
            /\ iter' = st.iter /\ status' = st.status /\ len' = st.len /\ big' = st.big
+           /\ cap' = st.cap /\ retries' = st.retries
 
-NewPeriod == [n |-> 0, tr |-> FALSE, last |-> "none", exit |-> "none", deco |-> "none"]
+(* one record per ATTEMPT: period k, with the cap and tolerance class in force *)
+NewAttempt(k, c, b) == [k |-> k, cap |-> c, big |-> b, n |-> 0, tr |-> FALSE, last |-> "none", exit |-> "none",
+                        deco |-> "none"]
 Cur == Len(hist)
 
-Init == \E b \in BOOLEAN :
-        LET s0 == InitState(Horizon, b)
-        IN /\ big = b
+Init == \E b \in BigChoices :
+        LET s0 == InitState(Horizon, b, Cap)
+        IN /\ big = b /\ cap = Cap /\ retries = 0
            /\ step = s0.step /\ sweep = s0.sweep /\ errc = s0.errc /\ evalErr = s0.evalErr
            /\ iter = s0.iter /\ status = s0.status /\ len = s0.len /\ hist = << >>
 
 BeginStep == /\ BeginStepEnabled(St, Horizon)
              /\ Set(BeginStepOp(St))
-             /\ hist' = Append(hist, NewPeriod)
+             /\ hist' = Append(hist, NewAttempt(step + 1, cap, big))
 
-Sweep(o) == /\ SweepEnabled(St, Cap, o)
+Retry(newcap, newbig) ==
+    /\ RetryEnabled(St, MaxRetries)
+    /\ Set(RetryOp(St, newcap, newbig))
+    /\ hist' = Append(hist, NewAttempt(step, newcap, newbig))
+
+Sweep(o) == /\ SweepEnabled(St, cap, o)
             /\ Set(SweepOp(St, o))
             /\ hist' = [hist EXCEPT ![Cur] =
                           [@ EXCEPT !.n = IF o = "other" THEN @ ELSE @ + 1,
@@ -174,12 +209,12 @@ Sweep(o) == /\ SweepEnabled(St, Cap, o)
                                     !.last = o,
                                     !.exit = IF o = "other" THEN "raised_other" ELSE @]]
 
-ExitLoop == /\ ExitLoopEnabled(St, Cap) /\ Set(ExitLoopOp(St)) /\ UNCHANGED hist
+ExitLoop == /\ ExitLoopEnabled(St, cap) /\ Set(ExitLoopOp(St)) /\ UNCHANGED hist
 
-RaiseConvergence == /\ RaiseConvergenceEnabled(St, Cap) /\ Set(RaiseOp(St, "raised_convergence"))
+RaiseConvergence == /\ RaiseConvergenceEnabled(St, cap) /\ Set(RaiseOp(St, "raised_convergence"))
                     /\ hist' = [hist EXCEPT ![Cur].exit = "raised_convergence"]
 
-RaiseValue == /\ RaiseValueEnabled(St, Cap) /\ Set(RaiseOp(St, "raised_value"))
+RaiseValue == /\ RaiseValueEnabled(St, cap) /\ Set(RaiseOp(St, "raised_value"))
               /\ hist' = [hist EXCEPT ![Cur].exit = "raised_value"]
 
 AppendValues == /\ AppendEnabled(St) /\ Set(AppendOp(St))
@@ -194,19 +229,22 @@ Decorate(d) == /\ DecorateEnabled(St) /\ Set(DecorateOp(St, d))
 Finish == /\ FinishEnabled(St, Horizon) /\ Set(FinishOp(St)) /\ UNCHANGED hist
 
 Next == \/ BeginStep
-        \/ \E o \in SweepOutcomes : Sweep(o)
+        \/ \E c \in {cap, cap + CapBoost}, b \in {big, TRUE} : Retry(c, b)
+        \/ \E o \in SweepAlphabet : Sweep(o)
         \/ ExitLoop \/ RaiseConvergence \/ RaiseValue \/ AppendValues
-        \/ \E d \in DecoOutcomes : Decorate(d)
+        \/ \E d \in DecoAlphabet : Decorate(d)
         \/ Finish
 
 Spec == Init /\ [][Next]_vars
 
 (* ---------------------------------------------------------------------------------- *)
-TypeOK == /\ big \in BOOLEAN
-          /\ step \in 0..Horizon /\ sweep \in 0..(Cap + 1)
+TypeOK == /\ big \in BOOLEAN /\ SweepAlphabet \subseteq SweepOutcomes /\ DecoAlphabet \subseteq DecoOutcomes
+          /\ BigChoices \subseteq BOOLEAN
+          /\ step \in 0..Horizon /\ sweep \in 0..(Cap + MaxRetries * CapBoost + 1)
+          /\ cap \in Cap..(Cap + MaxRetries * CapBoost) /\ retries \in 0..MaxRetries
           /\ errc \in ErrClasses /\ iter \in IterClasses /\ evalErr \in BOOLEAN
           /\ status \in Statuses
-          /\ \A c \in Classes : len[c] \in 1..(Horizon + 1)
+          /\ \A c \in Classes : len[c] \in 1..(Horizon + 1 + MaxRetries)
 
 (* C02: a period is reported as solved only after the error measure met the tolerance,  *)
 (* with finite iterates and without evaluation error in the last sweep                  *)
@@ -218,16 +256,21 @@ C02_SolvedOnlyIfConverged ==
 C02_SolvedOnlyAfterSweep ==
     status \in {"exited", "appended", "decorating"} => sweep >= 1
 
+(* C02: a period is recorded all-or-nothing - while it is being solved and after it has failed, *)
+(* nothing of it is in the series, so solving it again starts from the same series            *)
+C02_PeriodAllOrNothing ==
+    status \in {"iterating", "exited"} \cup Raised => \A c \in NonExo : len[c] = step
+
 (* C11 *)
-C11_BoundedSweeps == sweep <= Cap + 1
+C11_BoundedSweeps == sweep <= cap + 1
 
 C11_FailureRaises ==
-    [][ /\ (status = "iterating" /\ sweep > Cap) => status' \in Raised
-        /\ (status = "iterating" /\ sweep > Cap /\ evalErr) => status' = "raised_value"
-        /\ (status = "iterating" /\ sweep > Cap /\ ~evalErr) => status' = "raised_convergence"
+    [][ /\ (status = "iterating" /\ sweep > cap) => status' \in Raised
+        /\ (status = "iterating" /\ sweep > cap /\ evalErr) => status' = "raised_value"
+        /\ (status = "iterating" /\ sweep > cap /\ ~evalErr) => status' = "raised_convergence"
         /\ (status = "exited" /\ evalErr) => status' = "raised_value" ]_vars
 
-C11_NothingSolvedAtCap == status \in {"exited", "appended", "decorating"} => sweep <= Cap
+C11_NothingSolvedAtCap == status \in {"exited", "appended", "decorating"} => sweep <= cap
 
 C11_PrefixIntact ==
     [][ \A c \in Classes : len'[c] >= len[c] /\ len'[c] <= len[c] + 1 ]_vars
@@ -244,7 +287,7 @@ RECURSIVE Iterate(_, _)
 Iterate(st, m) == IF m = 0 THEN st ELSE Iterate(SweepOp(st, "notyet"), m - 1)
 JumpIsIteratedSweep ==
     \A m \in 0..(Cap + 1) :
-        LET s0 == BeginStepOp(InitState(Horizon, FALSE))
+        LET s0 == BeginStepOp(InitState(Horizon, FALSE, Cap))
         IN /\ JumpOp(s0, m) = Iterate(s0, m)
            /\ JumpEnabled(s0, Cap, m) <=> \A j \in 0..(m - 1) : SweepEnabled(Iterate(s0, j), Cap, "notyet")
 =============================================================================
